@@ -196,9 +196,18 @@ def check(run, prog, tier):
     # ---- C13-b
     cc = run.need(comm.funcs.get("copy_chars"), "copy_chars")
     # copy_chars(from, to, count, ip): the parameters are identified by position, not by name
-    P_FROM = (cc.params[0].get("n") if len(cc.params or []) > 0 else "from")
-    P_TO = (cc.params[1].get("n") if len(cc.params or []) > 1 else "to")
-    gud = run.need(comm.funcs.get("get_user_data"), "get_user_data")
+    _bytep = [p_ for p_ in (cc.params or []) if "char" in (p_.get("t") or "") and "*" in (p_.get("t") or "")]
+    # the two byte pointers by role, wherever they stand in the parameter list: the one stored through is the output
+    _written = {strip(strip(strip(n_["L"])["e"]).get("e") or strip(strip(n_["L"])["e"])).get("id") if strip(strip(n_["L"])["e"]).get("k") == "Un" else strip(strip(n_["L"])["e"]).get("id")
+                for b_, i_, n_ in cc.nodes() if n_.get("k") == "Asg" and strip(n_["L"]).get("k") == "Un" and strip(n_["L"]).get("op") == "*"}
+    _to = [p_ for p_ in _bytep if p_.get("id") in _written]
+    _from = [p_ for p_ in _bytep if p_.get("id") not in _written]
+    P_FROM = (_from[0].get("n") if _from else (cc.params[0].get("n") if len(cc.params or []) > 0 else "from"))
+    PI_FROM = _from[0].get("pi", 0) if _from else 0
+    PI_TO = _to[0].get("pi", 1) if _to else 1
+    P_TO = (_to[0].get("n") if _to else (cc.params[1].get("n") if len(cc.params or []) > 1 else "to"))
+    import inline as _inl
+    gud = _inl.inlined(run.need(comm.funcs.get("get_user_data"), "get_user_data"))
     run.saw(cc)
     run.saw(gud)
     to_id = [p.get("id") for p in cc.params if p["n"] == P_TO]
@@ -284,8 +293,8 @@ def check(run, prog, tier):
         dst = None
         if fn in ("memcpy", "memmove", "__builtin_memcpy") and strip(n["args"][1]).get("n") == srcname:
             dst = n["args"][0]
-        elif fn == "copy_chars" and any(x.get("k") == "Ref" and x.get("n") == srcname for x in walk(n["args"][0])):
-            dst = n["args"][1]
+        elif fn == "copy_chars" and PI_FROM < len(n["args"]) and PI_TO < len(n["args"]) and any(x.get("k") == "Ref" and x.get("n") == srcname for x in walk(n["args"][PI_FROM])):
+            dst = n["args"][PI_TO]
         if dst is None:
             continue
         # resolve a local pointer initialised from ip->text + X
